@@ -32,6 +32,12 @@ class BuiltinMixin:
             return m(st, fv.self, args, kwargs)
         m = getattr(self, "b_" + name.replace(".", "_"), None)
         if m is None:
+            root = name.split(".")[0]
+            if "." in name and root in ("datetime", "time", "os", "warnings", "logging", "random", "uuid", "locale"):
+                # external library call without a model: uninterpreted, assumed total (listed)
+                if root == "warnings":
+                    st.log.append(("warn", name, tuple(args)))
+                return self.opaque_call(st, "ext:" + name, list(args) + list(kwargs.values()))
             raise Unsupported(f"builtin {name} is not modelled (line {getattr(node, 'lineno', '?')})")
         return m(st, args, kwargs)
 
@@ -55,7 +61,7 @@ class BuiltinMixin:
             return v.kind
         if isinstance(v, VRef):
             h = st.deref(v)
-            return {HList: "list", HDict: "dict", HODict: "dict", HIter: "iter", HDeque: "deque"}.get(type(h), "obj")
+            return {HList: "list", HDict: "dict", HODict: "dict", HIter: "iter", HCIter: "iter", HDeque: "deque"}.get(type(h), "obj")
         if isinstance(v, VConst):
             if isinstance(v.py, bytes):
                 return "bytes"
@@ -184,7 +190,7 @@ class BuiltinMixin:
             py = {"VStr": "", "VInt": 0, "VBool": True, "VNone": None, "VFlt": 0.0, "VTuple": ()}[type(v).__name__]
             return [(st, VBool(z3.BoolVal(hasattr(py, n))))]
         if isinstance(v, VRef):
-            py = {HList: [], HDict: {}, HODict: {}, HIter: iter(()), HDeque: []}.get(type(st.deref(v)))
+            py = {HList: [], HDict: {}, HODict: {}, HIter: iter(()), HCIter: iter(()), HDeque: []}.get(type(st.deref(v)))
             if py is not None:
                 return [(st, VBool(z3.BoolVal(hasattr(py, n))))]
         if isinstance(v, VFunc):
@@ -499,9 +505,11 @@ class BuiltinMixin:
             return self.odict_iter(st, v, "keys", "asc")
         if isinstance(v, VConst) and isinstance(v.py, tuple) and v.py and v.py[0] == "odict-view":
             return self.odict_iter(st, VRef(v.py[1]), v.py[2], "asc")
-        items = self.concrete_items(st, v)
-        if isinstance(v, VRef) and isinstance(st.deref(v), HIter):
+        if isinstance(v, VRef) and isinstance(st.deref(v), (HIter, HCIter)):
             return [(st, v)]
+        items = self.concrete_items(st, v)
+        if items is not None:
+            return [(st, st.alloc(HCIter(list(items), 0)))]
         if isinstance(v, VRef) and isinstance(st.deref(v), HDict) and st.deref(v).present is not None:
             raise Unsupported("iter over symbolic dict")
         seq = self.as_seq(st, v)
@@ -527,6 +535,14 @@ class BuiltinMixin:
 
     def b_next(self, st, args, kwargs):
         it = args[0]
+        if isinstance(it, VRef) and isinstance(st.deref(it), HCIter):
+            h = st.deref(it)
+            if h.pos < len(h.items):
+                h.pos += 1
+                return [(st, h.items[h.pos - 1])]
+            if len(args) > 1:
+                return [(st, args[1])]
+            return [self.raised(st, "StopIteration")]
         if not (isinstance(it, VRef) and isinstance(st.deref(it), HIter)):
             raise Unsupported("next() of non-iterator")
         h = st.deref(it)
@@ -573,9 +589,19 @@ class BuiltinMixin:
         raise Unsupported("tuple() of symbolic")
 
     def b_dict(self, st, args, kwargs):
-        if not args:
-            return [(st, st.alloc(HDict(items=dict(kwargs))))]
-        raise Unsupported("dict(...) with arguments")
+        ref = st.alloc(HDict())
+        results = [(st, None)]
+        for src in args:
+            nxt = []
+            for s, o in results:
+                nxt.extend(self.dict_merge(s, ref, src) if o is None else [(s, o)])
+            results = nxt
+        for k, v in kwargs.items():
+            nxt = []
+            for s, o in results:
+                nxt.extend(self.set_item(s, ref, const(k), v) if o is None else [(s, o)])
+            results = nxt
+        return [(s, o if o is not None else ref) for s, o in results]
 
     def b_reversed(self, st, args, kwargs):
         (v,) = args
